@@ -156,7 +156,17 @@ fn run<G: Group>(sc: &Scenario, st: &mut RunStats) -> Vec<Violation> {
         }
         // the precomputed table represents exactly the interleaved vector
         let scalars: Vec<Scalar> = (0..2 * bits * cap).map(|_| srng.scalar()).collect();
-        let through_table = params.precomp().vartime_multiscalar_mul(scalars.iter());
+        let through_table = match crate::world::guarded(|| params.precomp().vartime_multiscalar_mul(scalars.iter())) {
+            Ok(p) => p,
+            Err(c) => {
+                out.push(Violation::new(
+                    "precomputed_table_differs_from_interleaved_generators",
+                    key.clone(),
+                    format!("{} ({}): evaluating {} scalars through precomp() panics — the table does not hold exactly the 2*bits*capacity vector generators: {:?}", key, G::NAME, 2 * bits * cap, c),
+                ));
+                return out;
+            },
+        };
         let mut naive = G::identity();
         for i in 0..bits * cap {
             naive = G::sum(&naive, &G::scale(&gi[i], &scalars[2 * i]));
